@@ -4,7 +4,7 @@ seeded/BATCH-*-results.txt (later files win for a change that was run again) and
 each seeded/<name>/meta.json.   tools/mk_session3_table.py [extra result files ...]"""
 import glob, json, os, re, sys
 VERIF = os.path.dirname(os.path.dirname(os.path.abspath(__file__)))
-files = [os.path.join(VERIF, "seeded", "BATCH-%s-results.txt" % b) for b in ["g", "h", "i", "j", "kl", "m", "n", "o", "p", "r", "s", "t", "u", "v"]]
+files = [os.path.join(VERIF, "seeded", "BATCH-%s-results.txt" % b) for b in ["g", "h", "i", "j", "kl", "m", "n", "o", "p", "r", "s", "t", "u", "v", "wx"]]
 files = [f for f in files if os.path.exists(f)] + sys.argv[1:]
 res = {}
 for f in files:
